@@ -13,6 +13,7 @@ RULE = ("Cases are operation histories (ParameterTable keyed/unkeyed vs dict/lis
         "for DataCombination. After EVERY operation all public accessors are compared with the model. "
         "Non-trivial: table history with a delete or overwrite followed by positional access; collector history with a "
         "sort over >=3 rows or with ties in the sort column; grid with incomplete last row; combination of >=2 lists "
+        "Round 4: refused assignments (non-sequence values) must leave the table as it was; attribute access of absent keys; abandoned and interleaved enumerations. "
         "with >=2 items each. Distinct = distinct canonical JSON of the whole case.")
 ASSUMPTIONS = [
     "keys are non-empty identifier strings not shadowed by class attributes; values have as many entries as fields",
